@@ -13,7 +13,9 @@ use serde_json::json;
 use std::collections::HashMap;
 use std::sync::Mutex;
 
-const USER_AC: &[(&str, &str)] = &[("as", "ash"), ("a", "oi"), ("ser", "seer"), ("kk", "kOkk"), ("zz", "jhal"), ("ami", "amra")];
+/// user auto-correct entries: for words without a bundled entry, and (last five) for words that HAVE a bundled
+/// entry — the user's must win
+const USER_AC: &[(&str, &str)] = &[("as", "ash"), ("a", "oi"), ("ser", "seer"), ("kk", "kOkk"), ("zz", "jhal"), ("ami", "amra"), ("academy", "ekaDemi"), ("rss", "aresses"), ("form", "phOrm"), ("ac", "ese"), ("ad", "eD")];
 
 #[derive(Clone)]
 struct Cfg {
